@@ -140,7 +140,8 @@ class Runner:
         self.loop = asyncio.new_event_loop()
         self.dir = tempfile.mkdtemp(prefix='case-', dir=root)
         self.pers = [('mem', plumpy.InMemoryPersister()), ('pkl', plumpy.PicklePersister(os.path.join(self.dir, 'pickles')))]
-        self.procs = {p: pp.CLASSES[i % len(pp.CLASSES)](pid=val(p), loop=self.loop) for i, p in enumerate(case['pids'])}
+        rot = len(case['ops'])           # which classes the pids get rotates with the case, so that small cases see all of them
+        self.procs = {p: pp.CLASSES[(i + rot) % len(pp.CLASSES)](pid=val(p), loop=self.loop) for i, p in enumerate(case['pids'])}
         self.n = {p: 0 for p in case['pids']}            # number of progress steps of each process
         self.refs = {}                                   # (pid token, n) -> deep copy of process.save() taken at a save
         self.universe = universe(case)
